@@ -1,6 +1,7 @@
 package props
 
 import (
+	"reflect"
 	"bytes"
 	"fmt"
 	"io"
@@ -32,12 +33,12 @@ type kvModel struct {
 	props  map[string]string
 	layout string
 	mode   string
-	vp     map[string]bool
+	vp     map[string]string // every viewer preference the document carries: Go field name -> printed value
 	atts   map[string]string // id -> content
 }
 
 func (m kvModel) clone() kvModel {
-	n := kvModel{kw: map[string]bool{}, props: map[string]string{}, layout: m.layout, mode: m.mode, vp: map[string]bool{}, atts: map[string]string{}}
+	n := kvModel{kw: map[string]bool{}, props: map[string]string{}, layout: m.layout, mode: m.mode, vp: map[string]string{}, atts: map[string]string{}}
 	for k, v := range m.kw {
 		n.kw[k] = v
 	}
@@ -142,17 +143,17 @@ func c35ops() []kvOp {
 		func(m kvModel) (kvModel, bool) { n := m.clone(); n.mode = ""; return n, true }})
 	ops = append(ops, kvOp{"setvp(hideToolbar)", buf(func(rs io.ReadSeeker, w io.Writer) error {
 		return api.SetViewerPreferencesFromJSONBytes(rs, w, []byte(`{"hideToolbar": true}`), newConf())
-	}), func(m kvModel) (kvModel, bool) { n := m.clone(); n.vp["HideToolbar"] = true; return n, true }})
+	}), func(m kvModel) (kvModel, bool) { n := m.clone(); n.vp["HideToolbar"] = "true"; return n, true }})
 	ops = append(ops, kvOp{"setvp(fitWindow,!hideToolbar)", buf(func(rs io.ReadSeeker, w io.Writer) error {
 		return api.SetViewerPreferencesFromJSONBytes(rs, w, []byte(`{"fitWindow": true, "hideToolbar": false}`), newConf())
 	}), func(m kvModel) (kvModel, bool) {
 		n := m.clone()
-		n.vp["FitWindow"] = true
-		n.vp["HideToolbar"] = false
+		n.vp["FitWindow"] = "true"
+		n.vp["HideToolbar"] = "false"
 		return n, true
 	}})
 	ops = append(ops, kvOp{"resetvp", buf(func(rs io.ReadSeeker, w io.Writer) error { return api.ResetViewerPreferences(rs, w, newConf()) }),
-		func(m kvModel) (kvModel, bool) { n := m.clone(); n.vp = map[string]bool{}; return n, true }})
+		func(m kvModel) (kvModel, bool) { n := m.clone(); n.vp = map[string]string{}; return n, true }})
 	attContent := map[string]string{"a.txt": "abc", "ä b.bin": string(ramp(256))}
 	for name, content := range attContent {
 		name, content := name, content
@@ -195,7 +196,7 @@ func ramp(n int) []byte {
 
 // c35observe reads everything back through the list functions.
 func c35observe(dir string, doc []byte) (kvModel, error) {
-	m := kvModel{kw: map[string]bool{}, props: map[string]string{}, vp: map[string]bool{}, atts: map[string]string{}}
+	m := kvModel{kw: map[string]bool{}, props: map[string]string{}, vp: map[string]string{}, atts: map[string]string{}}
 	kws, err := api.Keywords(bytes.NewReader(doc), newConf())
 	if err != nil {
 		return m, fmt.Errorf("Keywords: %w", err)
@@ -229,11 +230,19 @@ func c35observe(dir string, doc []byte) (kvModel, error) {
 		return m, fmt.Errorf("ViewerPreferences: %w", err)
 	}
 	if vp != nil {
-		if vp.HideToolbar != nil {
-			m.vp["HideToolbar"] = *vp.HideToolbar
-		}
-		if vp.FitWindow != nil {
-			m.vp["FitWindow"] = *vp.FitWindow
+		rv := reflect.ValueOf(*vp)
+		for i := 0; i < rv.NumField(); i++ {
+			f := rv.Field(i)
+			switch f.Kind() {
+			case reflect.Ptr:
+				if !f.IsNil() {
+					m.vp[rv.Type().Field(i).Name] = fmt.Sprint(f.Elem().Interface())
+				}
+			case reflect.Slice:
+				if f.Len() > 0 {
+					m.vp[rv.Type().Field(i).Name] = fmt.Sprint(f.Interface())
+				}
+			}
 		}
 	}
 	aa, err := api.ExtractAttachmentsRaw(bytes.NewReader(doc), dir, nil, newConf())
@@ -261,7 +270,7 @@ func runC35(r *core.R) {
 	r.Note("operations", len(ops))
 	dir := core.Scratch("c35")
 	defer os.RemoveAll(dir)
-	inits := [][]byte{docgen.Simple([]docgen.PageSpec{{Marker: 1}}, docgen.SimpleOpts{NoInfo: true}).Bytes(), docgen.Marked(2, 0)}
+	inits := [][]byte{docgen.Simple([]docgen.PageSpec{{Marker: 1}}, docgen.SimpleOpts{NoInfo: true}).Bytes(), docgen.Marked(2, 0), c35ForeignDoc()}
 	type state struct {
 		doc  []byte
 		m    kvModel
@@ -337,21 +346,26 @@ func runC35(r *core.R) {
 						}
 						continue
 					}
-					// duplicate attachment names: adopt derived ids if every listed id starts with a wanted name and holds its bytes
+					// duplicate attachment name: pdfcpu may keep both, the new one under a derived id. Accepted only if every
+					// earlier attachment is still listed with its own bytes and exactly one new id appeared, which starts
+					// with the added name and holds the added bytes.
 					if opk == "addatt" && len(got.atts) == len(s.m.atts)+1 && len(want.atts) == len(s.m.atts) {
+						name := strings.TrimSuffix(strings.SplitN(op.name, "(", 2)[1], ")")
 						okDerived := true
+						fresh := 0
 						for id, c := range got.atts {
-							base := ""
-							for n := range want.atts {
-								if strings.HasPrefix(id, n) {
-									base = n
+							if old, had := s.m.atts[id]; had {
+								if old != c {
+									okDerived = false
 								}
+								continue
 							}
-							if base == "" || want.atts[base] != c {
+							fresh++
+							if !strings.HasPrefix(id, name) || c != want.atts[name] {
 								okDerived = false
 							}
 						}
-						if okDerived {
+						if okDerived && fresh == 1 {
 							want.atts = got.atts
 						}
 					}
@@ -433,4 +447,27 @@ func c35KeyRoundTrips(r *core.R) {
 			}
 		}
 	}
+}
+
+// c35ForeignDoc: a document that already carries metadata written by another producer: keywords in a UTF-16
+// string, custom properties (one with an encoded name), page layout and mode, viewer preferences of several
+// types held in an indirect object, and a two-level EmbeddedFiles tree one of whose names ("a.txt") is also
+// used by the operation alphabet. The initial model is what pdfcpu lists for it; every edit afterwards must
+// change exactly what it names.
+func c35ForeignDoc() []byte {
+	d := docgen.Simple([]docgen.PageSpec{{Marker: 1}, {Marker: 2}}, docgen.SimpleOpts{NoInfo: true})
+	d.Info = d.Add("<</Title(foreign)/Producer(other)/Keywords" + c36utf16("alpha; ü €; beta gamma") + "/Company(ACME)/My#20Key(v1)/Trapped/False>>")
+	vp := d.Add("<</HideToolbar true/HideMenubar false/Direction/R2L/PrintScaling/None/NonFullScreenPageMode/UseOutlines/NumCopies 2>>")
+	mk := func(k, content string) string {
+		ef := d.AddStream("<</Type/EmbeddedFile>>", []byte(content))
+		fs := d.Add(fmt.Sprintf("<</Type/Filespec/F%s/UF%s/EF<</F %s>>>>", docgen.HexStr(k), docgen.HexStr(k), docgen.Ref(ef)))
+		return docgen.HexStr(k) + " " + docgen.Ref(fs)
+	}
+	l1 := d.Add(fmt.Sprintf("<</Limits[%s %s]/Names[%s]>>", docgen.HexStr("a.txt"), docgen.HexStr("a.txt"), mk("a.txt", "foreign a")))
+	l2 := d.Add(fmt.Sprintf("<</Limits[%s %s]/Names[%s]>>", docgen.HexStr("m.txt"), docgen.HexStr("m.txt"), mk("m.txt", "foreign m")))
+	l3 := d.Add(fmt.Sprintf("<</Limits[%s %s]/Names[%s]>>", docgen.HexStr("z.txt"), docgen.HexStr("z.txt"), mk("z.txt", "foreign z")))
+	mid := d.Add(fmt.Sprintf("<</Limits[%s %s]/Kids[%s %s %s]>>", docgen.HexStr("a.txt"), docgen.HexStr("z.txt"), docgen.Ref(l1), docgen.Ref(l2), docgen.Ref(l3)))
+	top := d.Add(fmt.Sprintf("<</Kids[%s]>>", docgen.Ref(mid)))
+	d.PatchCatalog(fmt.Sprintf("/PageLayout/TwoColumnLeft/PageMode/UseOutlines/ViewerPreferences %s/Names<</EmbeddedFiles %s>>", docgen.Ref(vp), docgen.Ref(top)))
+	return d.Bytes()
 }
